@@ -19,7 +19,7 @@ ops:
   {"op":"compile","cc":…,"lits":[[cp…]…],"autokwd":b,"icase":b}        → {"toks":[{"kind":"str","lit":…,"icase":b}|{"kind":"re","re":AST,"value":[cp…],"groups":n}…]}
   {"op":"parse","cc":…,"g":PE,"icase":b,"ws":[cp…],"ug":b,"text":[cp…]} → {"on":P,"off":P}, P = {"ok":b,"toks":[[pos,value,attr]…]} (autokwd on / off;
         ws = the whitespace set ([] for skipws=False), ug = use_regexp_group; attr = the value for the object graph)
-  {"op":"compilesrc","cc":…,"names":N,"srcs":[[cp…]…],"icase":b}          → {"rows":[{"lit":[cp…],"on":T,"off":T} | {"err":"invalid"|"surrogate"} …]}
+  {"op":"compilesrc","cc":…,"names":N,"srcs":[[cp…]…],"icase":b}          → {"rows":[{"on":T,"off":T} | {"err":"invalid"|"surrogate"} …]}
         srcs = grammar string tokens *with their quotes* as written (escape sequences undecoded), T as in op compile;
         N = [[name cps, cp]…] = Python's Unicode name table for the `\N{name}` written in the case
   op parse also takes "names":N and PE nodes ["slit",[cp…]] (a literal as written, with quotes); a literal with an
@@ -239,9 +239,9 @@ def handle (j : Json) : Json :=
     match cc? j, names? j, (getArr? j "srcs").bind (fun a => a.toList.mapM chars?), getBool? j "icase" with
     | some cc, some names, some srcs, some ic =>
       Json.mkObj [("rows", toJson (srcs.map fun tok =>
-        match Kwd.litOfSrc names tok, Kwd.visitStrMatch cc names ⟨true, ic⟩ tok, Kwd.visitStrMatch cc names ⟨false, ic⟩ tok with
-        | .ok l, .ok on, .ok off => Json.mkObj [("lit", cps l), ("on", tokJ on), ("off", tokJ off)]
-        | .error e, _, _ | _, .error e, _ | _, _, .error e => Json.mkObj [("err", decErrJ e)]))]
+        match Kwd.visitStrMatch cc names ⟨true, ic⟩ tok, Kwd.visitStrMatch cc names ⟨false, ic⟩ tok with
+        | .ok on, .ok off => Json.mkObj [("on", tokJ on), ("off", tokJ off)]
+        | .error e, _ | _, .error e => Json.mkObj [("err", decErrJ e)]))]
     | _, _, _, _ => badOp
   | some "parse" =>
     match cc? j, (names? j).bind (fun names => (getObj? j "g").bind (fun g => (pe? names g).run)), getBool? j "icase",
